@@ -144,6 +144,26 @@ pub fn wrap_root(format: &str, lines: &[String], two: bool) -> Vec<String> {
     }
 }
 
+/// Degenerate but well-formed files that the compiling generator does not produce: the whole
+/// model is one literal node (c2d), one true node (d4).
+pub fn special_inputs(prefix: &str) -> Vec<Input> {
+    let mk = |id: &str, n: u32, format: &'static str, lines: &[&str], models: Vec<u32>, desc: &str| Input {
+        id: format!("{}-special-{}", prefix, id),
+        n,
+        format,
+        lines: lines.iter().map(|l| l.to_string()).collect(),
+        desc: format!("special: {}", desc),
+        models: Some(models),
+    };
+    vec![
+        mk("lit-pos", 1, "c2d", &["nnf 1 0 1", "L 1"], vec![1], "c2d, the model is the single literal node x1"),
+        mk("lit-neg", 1, "c2d", &["nnf 1 0 1", "L -1"], vec![0], "c2d, the model is the single literal node -x1"),
+        mk("and-of-lits", 2, "c2d", &["nnf 3 2 2", "L -1", "L 2", "A 2 0 1"], vec![2], "c2d, -x1 and x2"),
+        mk("d4-true", 2, "d4", &["t 1 0"], vec![0, 1, 2, 3], "d4, a lone true node with 2 free features"),
+        mk("d4-unit", 2, "d4", &["o 1 0", "t 2 0", "1 2 -1 0"], vec![0, 2], "d4, -x1 with a free feature"),
+    ]
+}
+
 /// stream of source formulas: exhaustive small functions first, then random CNFs
 pub fn sources(ctx: &Ctx, rng: &mut Rng) -> Vec<Source> {
     let mut v = Vec::new();
